@@ -42,7 +42,8 @@ type St1 struct{ N int }
 type St2 struct{ N int }
 
 // Invoker runs the compiled graph on one input; stream = through Runnable.Stream (the
-// output stream is read to its end and must hold exactly one chunk) instead of Invoke
+// output stream is read to its end and must hold exactly one chunk) instead of Invoke; an input
+// of type Multi is sent chunk by chunk through Runnable.Transform
 type Invoker func(ctx context.Context, input any, stream bool) (any, error)
 
 type GraphH interface {
@@ -64,6 +65,42 @@ func (g gh[I, O]) Compile(ctx context.Context, opts ...compose.GraphCompileOptio
 		return nil, err
 	}
 	return func(ctx context.Context, input any, stream bool) (any, error) {
+		drainOut := func(sr *schema.StreamReader[O]) (any, error) {
+			defer sr.Close()
+			var out any
+			n := 0
+			for {
+				v, err := sr.Recv()
+				if err == io.EOF {
+					break
+				}
+				if err != nil {
+					return nil, err
+				}
+				out = v
+				n++
+			}
+			if n != 1 {
+				return nil, fmt.Errorf("harness: stream delivered %d chunks", n)
+			}
+			return out, nil
+		}
+		if m, ok := input.(Multi); ok {
+			// several input chunks: through Runnable.Transform
+			var ins []I
+			for _, x := range m.Vals {
+				var in I
+				if x != nil {
+					in = x.(I)
+				}
+				ins = append(ins, in)
+			}
+			sr, err := r.Transform(ctx, schema.StreamReaderFromArray(ins))
+			if err != nil {
+				return nil, err
+			}
+			return drainOut(sr)
+		}
 		var in I
 		if input != nil {
 			in = input.(I)
@@ -79,24 +116,7 @@ func (g gh[I, O]) Compile(ctx context.Context, opts ...compose.GraphCompileOptio
 		if err != nil {
 			return nil, err
 		}
-		defer sr.Close()
-		var out any
-		n := 0
-		for {
-			v, err := sr.Recv()
-			if err == io.EOF {
-				break
-			}
-			if err != nil {
-				return nil, err
-			}
-			out = v
-			n++
-		}
-		if n != 1 {
-			return nil, fmt.Errorf("harness: stream delivered %d chunks", n)
-		}
-		return out, nil
+		return drainOut(sr)
 	}, nil
 }
 
